@@ -38,6 +38,8 @@ class Scenario:
         self.term_hashes = set()
         self.t0 = time.time()
         self.witness = {}  # atom name -> witness value used
+        self.replay_data = None  # harness-specific counterexample data (engine 2)
+        self.extra = {}
 
     # ---------------------------------------------------------------- witnesses / inputs
     def randn(self, *shape, scale=1.0):
@@ -237,9 +239,10 @@ class Scenario:
             "violations": self.violations[:10],
             "n_violations": len(self.violations),
             "candidates": [(l, ov) for l, ov in self.candidates[:3]],
-            "queries": CTX.nq, "solver_s": round(CTX.tq, 3), "sweep_unknown": 0,
+            "queries": CTX.nq + int(self.extra.get("queries", 0)), "solver_s": round(CTX.tq + float(self.extra.get("solver_s", 0.0)), 3),
+            "overrides": self.replay_data, "extra": {k: v for k, v in self.extra.items() if k not in ("functions",)},
             "ops": dict(OPLOG), "nops": STATS["ops"], "nsymops": STATS["symops"],
-            "frames": sorted(FRAMES), "branches": [list(map(str, b)) for b in CTX.branches[:40]],
+            "frames": sorted(FRAMES) + ["pysym:" + f for f in self.extra.get("functions", [])], "branches": [list(map(str, b)) for b in CTX.branches[:40]],
             "assumed_nonzero": len(CTX.assumed_nonzero), "atoms": len(CTX.atoms),
             "fun_atoms": {k: len(v) for k, v in CTX.fun.items()},
             "twins": self.twins, "validated_elems": SH.nchecked,
